@@ -135,6 +135,11 @@ func initZZ() {
 		}
 		return n
 	})
+	Z("Input", func(fr *frame, a []value) value { return fr.e.Input })
+	Z("Output", func(fr *frame, a []value) value {
+		fr.e.Outputs = append(fr.e.Outputs, strArg(a[0]))
+		return nil
+	})
 	Z("Steps", func(fr *frame, a []value) value { return int(fr.e.steps) })
 	Z("Stdout", func(fr *frame, a []value) value { return strings.Join(fr.e.stdout, "") })
 	Z("Opaque", func(fr *frame, a []value) value { return fr.e.opaque })
